@@ -278,7 +278,7 @@ class C12(Prop):
                 spec["affine"] = aff
             try:
                 g = make_grid(spec)
-            except RuntimeError:
+            except (RuntimeError, AssertionError):
                 # porepy's own geometry computation gives up on some tiny / tilted planar grids
                 # (absolute collinearity tolerance in compute_normal) — not a TPFA matter
                 spec.pop("affine", None)
@@ -513,7 +513,7 @@ class C12(Prop):
                 and np.allclose(mbflux, bflux, rtol=rt, atol=1e-9 * bscale * (1e3 if graded else 1))):
             return ("MPFA and TPFA differ on a K-orthogonal grid: "
                     f"flux {np.abs(mflux - flux).max():.3e}, bound_flux {np.abs(mbflux - bflux).max():.3e}")
-        if not case["const"] or res["pmap"]:
+        if not case["const"] or res["pmap"] or (case.get("second") or {}).get("k"):
             return None
         # linear exactness: p = a.x + b, flux must be -n.K a on every face
         a = np.array(case["lin"][:3], dtype=float)
